@@ -99,6 +99,19 @@ MUTANTS = [
     dict(id='c15-last-not-reset', prop='C15', rule='R15.1', file=IO+'transfac/reader.rs', old="            self.buffer.clear();\n            self.last = 0;\n            Some(Ok(record))", new="            self.buffer.clear();\n            Some(Ok(record))"),
     dict(id='c15-compaction-offby1', prop='C15', rule='R15.1', file=IO+'jaspar/mod.rs', old="self.buffer.truncate(n - self.start);", new="self.buffer.truncate(n - self.start - 1);"),
     dict(id='c15-index-wrong-vec', prop='C15', rule='R15.1', file=IO+'jaspar/parse.rs', old="        for (i, x) in counts.into_iter().enumerate() {\n            matrix[i][s.as_index()] = *x", new="        for (i, x) in counts.into_iter().enumerate() {\n            matrix[i + 1][s.as_index()] = *x"),
+    # ---- C17
+    dict(id='c17-pvalue-calls-score', prop='C17', rule='R17.1', file=PYLIB, old="ScoreDistributionData::Dna(dna) => Ok(dna.pvalue(score as f32)),", new="ScoreDistributionData::Dna(dna) => Ok(dna.score(score) as f64),"),
+    dict(id='c17-method-crossed', prop='C17', rule='R17.1', file=PYLIB, old='            "meme" => {\n                let dist = Self::score_distribution(slf)?;\n                match &dist.bind(py).borrow().data {\n                    ScoreDistributionData::Dna(dna) => Ok(dna.score(pvalue) as f64),', new='            "meme2" => {\n                let dist = Self::score_distribution(slf)?;\n                match &dist.bind(py).borrow().data {\n                    ScoreDistributionData::Dna(dna) => Ok(dna.score(pvalue) as f64),'),
+    dict(id='c17-threshold-constant', prop='C17', rule='R17.2', file=PYLIB, old="scanner.threshold(threshold);", new="scanner.threshold(0.0);"),
+    dict(id='c17-block-size-dropped', prop='C17', rule='R17.2', file=PYLIB, old="                    scanner.block_size(block_size);\n", new=""),
+    dict(id='c17-log-odds-arms', prop='C17', rule='R17.3', file=PYLIB, old="                    true => $data.rescale(bg),\n                    false => $data.clone(),", new="                    false => $data.rescale(bg),\n                    true => $data.clone(),"),
+    dict(id='c17-configure-dropped', prop='C17', rule='R17.4', file=PYLIB, old="                dna.configure(pssm);\n", new=""),
+    dict(id='c17-configure-after', prop='C17', rule='R17.4', file=PYLIB, old="                prot.configure(pssm);\n                Ok(slf.py().allow_threads(|| pli.score(pssm, prot)).into())", new="                let r = slf.py().allow_threads(|| pli.score(pssm, &*prot));\n                prot.configure(pssm);\n                Ok(r.into())"),
+    dict(id='c17-create-pseudocount', prop='C17', rule='R17.5', file=PYLIB, old="            let weights = data.to_freq(0.0).to_weight(None);", new="            let weights = data.to_freq(0.1).to_weight(None);"),
+    dict(id='c17-as-ptr-unguarded', prop='C17', rule='R17.6', file=PYLIB, old="        let data = if slf.scores.matrix().rows() == 0 {\n            std::ptr::NonNull::<f32>::dangling().as_ptr() as *const f32\n        } else {\n            slf.scores.matrix()[0].as_ptr()\n        };", new="        let data = slf.scores.matrix()[0].as_ptr();"),
+    dict(id='c17-new-unwrap', prop='C17', rule='R17.6', file=PYLIB, old='        let seq = sequence.to_str()?;\n        let py = sequence.py();', new='        let seq = sequence.to_str().unwrap();\n        let py = sequence.py();'),
+    dict(id='c17-key-len-check', prop='C17', rule='R17.6', file=PYLIB, old="        if key.len() != 1 {", new="        if key.len() > 1 {"),
+    dict(id='c17-overlong-read', prop='C17', rule='R17.6', file='lightmotif-py/lightmotif/pyfile.rs', old="                        if b.len() > buf.len() {", new="                        if b.len() > buf.len() + 1 {"),
     # ---- C18
     dict(id='c18-raw-index', prop='C18', rule='R18.1', file=PYLIB, old="let row = slf.data.get(index_ as usize);", new="let row = slf.data.get(index as usize);", occ=1),
     dict(id='c18-scores-no-normalise', prop='C18', rule='R18.2', file=PYLIB, old="        if index < 0 {\n            index += self.scores.max_index() as isize;\n        }\n", new=""),
